@@ -8,10 +8,12 @@ import (
 	"math/rand"
 	"os"
 	"path/filepath"
+	"strings"
 	"testing"
 	"time"
 
 	"github.com/olric-data/olric"
+	"github.com/olric-data/olric/config"
 	"github.com/olric-data/olric/internal/cluster/partitions"
 	"github.com/olric-data/olric/verifharness/cluster"
 	"github.com/olric-data/olric/verifharness/trace"
@@ -325,6 +327,67 @@ func TestC18(t *testing.T) {
 			}
 		}
 		cc.Close(ctx)
+		c.ShutdownAsync()
+	}
+	// "a caller may reuse the buffers it passed to Put as soon as Put returns" - also when the backups are written in the
+	// background (asynchronous replication): every Put through the embedded client passes a []byte that is overwritten the
+	// moment Put has returned; once the backup copies have arrived, every copy (white box) and every read holds what was put
+	for r := 0; r < envInt("VERIF_C18_ASYNC", 1); r++ {
+		c, err := cluster.Start(cluster.Options{Replicas: 2, Partitions: 7, TableSize: 0, Manual: true,
+			Tweak: func(c *config.Config) { c.ReplicationMode = config.AsyncReplicationMode }}, 2)
+		if err != nil {
+			t.Fatal(err)
+		}
+		label := "N=2 R=2 asynchronous replication"
+		sum.Configs = append(sum.Configs, label)
+		seq++
+		w.Emit(trace.Ev{"t": "reset", "seq": seq, "cfg": label, "via": "embedded"})
+		emb, err := c.Members[r%2].DB.NewEmbeddedClient().NewDMap("c18")
+		if err != nil {
+			t.Fatal(err)
+		}
+		var keys []string
+		for i := 0; i < 200; i++ {
+			key := fmt.Sprintf("as%d-%d", r, i)
+			buf := []byte(fmt.Sprintf("value-%d-%d-%s", r, i, strings.Repeat(string(rune('a'+i%26)), 40+rng.Intn(200))))
+			want := digest(buf)
+			if err := emb.Put(ctx, key, buf); err != nil {
+				t.Fatalf("put: %v", err)
+			}
+			for x := range buf {
+				buf[x] = 'Q'
+			}
+			w.Emit(trace.Ev{"t": "put", "k": key, "v": want})
+			w.Emit(trace.Ev{"t": "mutbuf", "k": key})
+			keys = append(keys, key)
+			sum.Evaluations++
+		}
+		for _, key := range keys {
+			// the backup copy arrives in the background: wait for it (a copy that never arrives is not judged here)
+			var bk []byte
+			for until := time.Now().Add(5 * time.Second); time.Now().Before(until) && bk == nil; {
+				for _, m := range c.Live() {
+					if e, ok := m.V.DMap.VerifEntry("c18", key, partitions.BACKUP); ok {
+						bk = append([]byte{}, e.Value...)
+					}
+				}
+				if bk == nil {
+					time.Sleep(2 * time.Millisecond)
+				}
+			}
+			if bk != nil {
+				w.Emit(trace.Ev{"t": "get", "k": key, "v": digest(bk), "after": "the backup copy written in the background after the caller reused the buffer passed to Put"})
+			}
+			cur := "nil"
+			if g, err := emb.Get(ctx, key); err == nil {
+				b, _ := g.Byte()
+				cur = digest(b)
+			}
+			w.Emit(trace.Ev{"t": "get", "k": key, "v": cur, "after": "asynchronous replication after the caller reused the buffer passed to Put"})
+			sum.Evaluations++
+		}
+		sum.Histories++
+		sum.DistinctNontrivial++
 		c.ShutdownAsync()
 	}
 	cluster.WaitBackground(10 * time.Second)
